@@ -1,3 +1,132 @@
-From HV Require Import Base.Prelude Model.LowFloat.
-Theorem C20_placeholder : True. Proof. exact I. Qed.
-Print Assumptions C20_placeholder.
+(* Property C20: FP8 (E4M3, E5M2) and bfloat16 conversions.  Statements only; proofs are in Proofs/LowFloat*.v.
+   Bit patterns are N: float32 as 32 bits, codes as 8/16 bits.  4294967296 = 2^32, 2147483648 = 2^31 (sign bit),
+   2139095040 = 0x7F800000 (+Inf, the largest non-NaN magnitude). *)
+From HV Require Import Base.Prelude Model.LowFloat Model.LowFloatTie.
+From HV Require Import Proofs.LowFloat.
+
+(* ---- 1. run lifting: agreement at the end points of a run inside one sign/NaN segment is agreement on the run *)
+Theorem C20_run_lifting_e4m3 : forall s e c x,
+  run_ok (fp8_enc E4M3) (s, e, c) = true -> s <= x -> x <= e -> x < 4294967296 -> fp8_enc E4M3 x = c.
+Proof. exact (fp8_run_lifting E4M3 (or_introl eq_refl)). Qed.
+Print Assumptions C20_run_lifting_e4m3.
+
+Theorem C20_run_lifting_e5m2 : forall s e c x,
+  run_ok (fp8_enc E5M2) (s, e, c) = true -> s <= x -> x <= e -> x < 4294967296 -> fp8_enc E5M2 x = c.
+Proof. exact (fp8_run_lifting E5M2 (or_intror eq_refl)). Qed.
+Print Assumptions C20_run_lifting_e5m2.
+
+(* bfloat16 keeps NaN payloads, so on the NaN segments the encoder is not monotone; run_ok_bf16 is run_ok plus
+   "a run in a NaN segment stays inside one 65536-block" (there the code depends on the upper 16 bits only). *)
+Theorem C20_run_lifting_bf16 : forall s e c x,
+  run_ok_bf16 (s, e, c) = true -> s <= x -> x <= e -> x < 4294967296 -> bf16_enc x = c.
+Proof. exact bf16_run_lifting. Qed.
+Print Assumptions C20_run_lifting_bf16.
+
+(* on the two number segments plain end-point agreement suffices ... *)
+Theorem C20_run_lifting_bf16_numbers : forall s e c x,
+  run_ok bf16_enc (s, e, c) = true -> N.even (seg s) = true ->
+  s <= x -> x <= e -> x < 4294967296 -> bf16_enc x = c.
+Proof. exact bf16_run_lifting_num. Qed.
+Print Assumptions C20_run_lifting_bf16_numbers.
+
+(* ... and on a NaN segment it does not (0x7F800001 and 0x7FC0FFFF both give 0x7FC0, 0x7F810000 gives 0x7FC1) *)
+Theorem C20_run_lifting_bf16_plain_refuted :
+  exists s e c x, run_ok bf16_enc (s, e, c) = true /\ s <= x /\ x <= e /\ x < 4294967296 /\ bf16_enc x <> c.
+Proof. exact bf16_run_lifting_plain_refuted. Qed.
+Print Assumptions C20_run_lifting_bf16_plain_refuted.
+
+(* ---- 2. the magnitude encoders are monotone on [+0, +Inf] *)
+Theorem C20_fp8_mono : forall F, (F = E4M3 \/ F = E5M2) ->
+  forall a b, a <= b -> b <= 2139095040 -> fp8_enc_mag F a <= fp8_enc_mag F b.
+Proof. exact fp8_mono. Qed.
+Print Assumptions C20_fp8_mono.
+
+Theorem C20_bf16_mono : forall a b, a <= b -> b <= 2139095040 -> bf16_enc a <= bf16_enc b.
+Proof. exact bf16_mono. Qed.
+Print Assumptions C20_bf16_mono.
+
+(* ---- 3. FP8: the result is the nearest representable value, ties to the even code; a value at or beyond the
+        midpoint between the largest finite value and the next grid point gives the infinity code 0x7F.
+        (fp8_rne_ok = rne_spec on exact values scaled by 2^149, see Model/LowFloat.v) *)
+Theorem C20_fp8_rne_e4m3 : forall mag, mag <= 2139095040 -> fp8_rne_ok E4M3 mag (fp8_enc_mag E4M3 mag) = true.
+Proof. exact fp8_rne_E4M3. Qed.
+Print Assumptions C20_fp8_rne_e4m3.
+
+Theorem C20_fp8_rne_e5m2 : forall mag, mag <= 2139095040 -> fp8_rne_ok E5M2 mag (fp8_enc_mag E5M2 mag) = true.
+Proof. exact fp8_rne_E5M2. Qed.
+Print Assumptions C20_fp8_rne_e5m2.
+
+(* ---- 4. bfloat16: same specification on the grid of float32 values with 16 low zero bits, infinity 0x7F80 *)
+Theorem C20_bf16_rne : forall mag, mag <= 2139095040 -> bf16_rne_ok mag (bf16_enc mag) = true.
+Proof. exact bf16_rne. Qed.
+Print Assumptions C20_bf16_rne.
+
+(* 3./4. for the full encoders: a non-NaN input gives its sign bit plus the correctly rounded magnitude *)
+Theorem C20_fp8_enc_correct : forall F, (F = E4M3 \/ F = E5M2) ->
+  forall x, x < 4294967296 -> f32_is_nan x = false ->
+  exists c, fp8_enc F x = f32_sign x * 128 + c /\ fp8_rne_ok F (f32_mag x) c = true.
+Proof. exact fp8_enc_correct. Qed.
+Print Assumptions C20_fp8_enc_correct.
+
+Theorem C20_bf16_enc_correct : forall x, x < 4294967296 -> f32_is_nan x = false ->
+  exists c, bf16_enc x = f32_sign x * 32768 + c /\ bf16_rne_ok (f32_mag x) c = true.
+Proof. exact bf16_enc_correct. Qed.
+Print Assumptions C20_bf16_enc_correct.
+
+(* ---- 5. sign symmetry *)
+Theorem C20_fp8_sign : forall F x, x < 2147483648 -> f32_is_nan x = false ->
+  fp8_enc F (x + 2147483648) = fp8_enc F x + 128.
+Proof. exact fp8_sign. Qed.
+Print Assumptions C20_fp8_sign.
+
+Theorem C20_bf16_sign : forall x, x < 2147483648 -> f32_is_nan x = false ->
+  bf16_enc (x + 2147483648) = bf16_enc x + 32768.
+Proof. exact bf16_sign. Qed.
+Print Assumptions C20_bf16_sign.
+
+(* ---- 6. code -> float32 -> code *)
+Theorem C20_fp8_code_roundtrip_e4m3 : forall c, c < 256 -> fp8_nan_code E4M3 c = false ->
+  fp8_enc E4M3 (fp8_dec E4M3 c) = c.
+Proof. exact (fp8_code_roundtrip E4M3 (or_introl eq_refl)). Qed.
+Print Assumptions C20_fp8_code_roundtrip_e4m3.
+
+Theorem C20_fp8_code_roundtrip_e5m2 : forall c, c < 256 -> fp8_nan_code E5M2 c = false ->
+  fp8_enc E5M2 (fp8_dec E5M2 c) = c.
+Proof. exact (fp8_code_roundtrip E5M2 (or_intror eq_refl)). Qed.
+Print Assumptions C20_fp8_code_roundtrip_e5m2.
+
+Theorem C20_bf16_code_roundtrip : forall c, c < 65536 -> c mod 32768 <= 32640 -> bf16_enc (bf16_dec c) = c.
+Proof. exact bf16_code_roundtrip. Qed.
+Print Assumptions C20_bf16_code_roundtrip.
+
+Theorem C20_bf16_nan_stays_nan : forall x, x < 4294967296 -> f32_is_nan x = true ->
+  32640 < (bf16_enc x) mod 32768.
+Proof. exact bf16_nan_stays_nan. Qed.
+Print Assumptions C20_bf16_nan_stays_nan.
+
+Theorem C20_bf16_no_nan_confusion : forall x, x < 4294967296 -> f32_is_nan x = false ->
+  (bf16_enc x) mod 32768 <= 32640.
+Proof. exact bf16_no_nan_confusion. Qed.
+Print Assumptions C20_bf16_no_nan_confusion.
+
+(* ---- 7. NaN codes of FP8 *)
+Theorem C20_fp8_no_nan_from_number : forall F, (F = E4M3 \/ F = E5M2) ->
+  forall x, x < 4294967296 -> f32_is_nan x = false -> fp8_nan_code F (fp8_enc F x) = false.
+Proof. exact fp8_no_nan_from_number. Qed.
+Print Assumptions C20_fp8_no_nan_from_number.
+
+(* known finding C20-fp8-nan-is-inf-code: a NaN becomes +Inf *)
+Theorem C20_fp8_nan_refuted :
+  exists x, f32_is_nan x = true /\ f32_is_inf (fp8_dec E4M3 (fp8_enc E4M3 x)) = true.
+Proof. exact fp8_nan_refuted. Qed.
+Print Assumptions C20_fp8_nan_refuted.
+
+Theorem C20_fp8_nan_refuted_e5m2 :
+  exists x, f32_is_nan x = true /\ f32_is_inf (fp8_dec E5M2 (fp8_enc E5M2 x)) = true.
+Proof. exact fp8_nan_refuted_e5m2. Qed.
+Print Assumptions C20_fp8_nan_refuted_e5m2.
+
+(* ---- 8. byte codec *)
+Theorem C20_bf16_bytes_roundtrip : forall c, c < 65536 -> bf16_unbytes (bf16_bytes c) = c.
+Proof. exact bf16_bytes_roundtrip. Qed.
+Print Assumptions C20_bf16_bytes_roundtrip.
